@@ -23,6 +23,8 @@ export VERIF_PLAIN_BIN="$BIN/$id_lc" VERIF_RACE_BIN="$BIN/$id_lc.race"
 
 SCRATCH="$(mktemp -d /var/tmp/verif-$id_lc-XXXXXX)"
 trap 'rm -rf "$SCRATCH"' EXIT
+mkdir -p "$SCRATCH/tmp"
+export TMPDIR="$SCRATCH/tmp"
 export VERIF_SCRATCH="$SCRATCH" VERIF_RACELOG="$SCRATCH/toprace"
 export GORACE="halt_on_error=0 exitcode=0 history_size=5 log_path=$SCRATCH/toprace"
 export GOTRACEBACK=all
